@@ -74,9 +74,16 @@ def run_case(case, ch, workdir):
         if k in failed:
             continue
         lab = wc.node_of_key(k)
+        top = wc.top_node(lab)
         if data_dep(k):
             must_not.add(k)
-        elif wc.top_node(lab) not in down or lab in failed_labels:
+        elif top not in down:
+            must_run.add(k)
+        elif lab in failed_labels and top not in wfgen.downstream(spec, failed_tops - {top}):
+            # a sibling state of a failing job - unless the whole node is downstream of
+            # ANOTHER failing node: pydra resolves dependencies between nodes, not between
+            # states (a node starts once all its predecessor nodes are done), so there the
+            # sibling may legitimately never start
             must_run.add(k)
     prof = wc.gen_profile(ch)
     prof["hold_body"] = ch.pick([0, 2, 2, 3], "hold")
@@ -120,7 +127,7 @@ def run_case(case, ch, workdir):
             # (a) independent jobs were executed and cached
             for k in sorted(must_run):
                 if k not in exits:
-                    violation(res, "independent-job-not-run", sig, f"{k[:100]} is independent of the failed job(s) {sorted(failed_eff)} but was never executed (workflow: {desc}); error: {text[:300]}")
+                    violation(res, "independent-job-not-run", sig, f"{k[:100]} is independent of the failed job(s) {sorted(failed_eff)} but was never executed (workflow: {desc}); order={[(a, b[:40]) for a, b in order]}; error: {text[: int(os.environ.get("VERIF_DETAIL_MAX", "300"))]}")
             # (b) consumers of a failed job never ran
             for k in sorted(must_not):
                 if k in enters:
@@ -133,8 +140,10 @@ def run_case(case, ch, workdir):
                 n_failed_here = len({k for k in fails if wc.node_of_key(k) == lab})
                 found = set()
                 for nm in names:
-                    for m in re.finditer(r"Job '" + re.escape(nm) + r"(\(\d+\))?'", text):
-                        found.add(m.group(0))
+                    for i, m in enumerate(re.finditer(r"Job '" + re.escape(nm) + r"(\(\d+\))?'", text)):
+                        # jobs inside the states of a nested workflow all carry the same name:
+                        # there every mention (one per failed enclosing workflow job) counts
+                        found.add((m.group(0), i) if "i" in lab else m.group(0))
                 if len(found) < min(n_failed_here, 1):
                     violation(res, "failed-job-not-named", sig, f"error text does not name failed job {lab}: {text[:600]} (workflow: {desc})")
                 elif len(found) < n_failed_here:
